@@ -241,9 +241,9 @@ package forkexec
 //@   requires r != nil && p[0] != p[1] && (err1 == 0 ==> 0 <= pid && pid < 2147483648)
 //@   assigns P.st, S.cb_calls, W.kill_pid, W.kill_count, W.reaped, FD.closed, FD.handed, K.last_trap, K.last_errno, K.sync_stage, K.sync_wfile
 //@   ensures @C12 FD.closed[p[1]] && (FD.closed[p[0]] || FD.handed[p[0]])
-//@   ensures @C07 result.1 != nil && err1 == 0 ==> W.kill_pid == pid && W.reaped[pid] && W.kill_count == old(W.kill_count) + 1
+//@   ensures @C07 @C12 result.1 != nil && err1 == 0 ==> W.kill_pid == pid && W.reaped[pid] && W.kill_count == old(W.kill_count) + 1
 //@   ensures @C07 result.1 != nil ==> result.0 == 0
-//@   ensures @C07 result.1 == nil ==> (result.0 == pid && W.kill_count == old(W.kill_count)) || (result.0 == 0 && W.kill_pid == pid && W.reaped[pid])
+//@   ensures @C07 @C12 result.1 == nil ==> (result.0 == pid && W.kill_count == old(W.kill_count)) || (result.0 == 0 && W.kill_pid == pid && W.reaped[pid])
 //@   ensures @C10 S.cb_calls == old(S.cb_calls) || S.cb_calls == old(S.cb_calls) + 1
 //@   ensures @C10 r.SyncFunc == nil ==> S.cb_calls == old(S.cb_calls)
 //@   ensures @C10 @C07 result.1 == nil && r.SyncFunc != nil ==> S.cb_calls == old(S.cb_calls) + 1
